@@ -25,3 +25,29 @@ check('C05', 'proof',
       'and repeat commits the repetition (the clause of docs/syntax.rst on closures).',
       'Trusted: pyvc, z3, PARSE generic contract for sub-expressions. The whole-grammar statement is a bounded run.',
       'contract-based deductive verification (pyvc) + bounded oracle comparison', '3/C05')
+check('C03', 'proof',
+      'Proved for all inputs: the seed-growing loop of recursive_call terminates (measure len(text) - lastpos), keeps the callers frames, '
+      'returns the last seed whose end position advanced, stores seeds closed, restores the position every round; the guard and the memo '
+      'table writers keep the table well-formed. Detection of left-recursive rules is shared with C16; the grammar-level statement '
+      '(left associativity, longest prefix) is a bounded run.',
+      'Trusted: pyvc, z3, PARSE/ACTION generic contracts, prune_dict (assumed contract).',
+      'contract-based deductive verification (pyvc: loop invariant + decreases) + bounded oracle comparison', '3/C03')
+check('C04', 'proof',
+      'Proved for all inputs and configurations: memo() returns only what was stored under the same key, memoize() writes exactly when the rule is memoizable and '
+      'memoization is on, every writer keeps the table well-formed (only parse outcomes inside the text), the key of an invocation names the invoked rule at the '
+      'position after whitespace, rule_call replays a remembered outcome without running the body and never touches the callers frames. '
+      'Transparency of capacity/pruning/tracing as a whole-parse statement is a bounded run.',
+      'Trusted: pyvc, z3, determinism of rule bodies and actions (stated assumption), prune_dict and BoundedDict eviction covered by bounded runs.',
+      'contract-based deductive verification (pyvc) + bounded configuration matrix', '3/C04')
+check('C06', 'proof',
+      'Proved for all inputs: semantics_call passes the rule AST and declared parameters to the action found for the rule name and returns ITS result, '
+      'returns the node unchanged without an action; FailedSemantics becomes a memoized parse failure in rule_call (so alternatives are tried); every '
+      'other exception class propagates unchanged through expcall/isolate/statescope/option/optional/if_/closure/func_call/rule_call/call (implicit '
+      'no-escape / propagate obligations); the stack is back at its entry depth on every TatSu exit of rule_call.',
+      'Trusted: pyvc, z3, action lookup by reflection (assumed contract + bounded run), boundcall.',
+      'contract-based deductive verification (pyvc: exceptional postconditions) + bounded semantics matrix', '3/C06')
+check('C11', 'proof',
+      'Proved for all inputs: validate_is_not_keyword raises KeywordError (a FailedParse) exactly when the case-folded text of the value is a keyword; '
+      'semantics_call runs it first and only for @name rules, before the action and before the success is memoized; rule_call memoizes the rejection as a failure.',
+      'Trusted: pyvc, z3, str()/upper() as uninterpreted functions; keyword-set normalisation in Grammar/ParserConfig and the generated parser are bounded runs.',
+      'contract-based deductive verification (pyvc) + bounded keyword matrix', '3/C11')
